@@ -20,6 +20,19 @@ CHECKS = {
         technique="Lean 4 theorems (induction over dictionaries/atom lists) + generated-table obligation + differential correspondence",
         ref="§5 C07",
     ),
+    "C08": dict(
+        text="Theorem C08_solutions_sum: for every rule database passing goodDB and every imbalance dictionary, every "
+        "completion returned by the matcher uses database compounds with multiplicity >= 1 whose compositions sum to the "
+        "imbalance at every key (charge included) — by induction over the depth-first search, any fuel, any database. Table "
+        "obligations re-checked against the current JSON files: both shipped databases are good, every recorded composition "
+        "equals the one derived from RDKit's atom list of its SMILES, every dihalogen spelling is in the ban list; accepted "
+        "reactions contain no banned spelling. Matcher, ranking, constraint and the whole rule-based row function are tied to "
+        "the code differentially (solution lists compared including order).",
+        note=TB + "RDKit atom lists embedded in the generated tables; Python str/dict/sort semantics (Py/*.lean, tested against "
+        "CPython each run); termination of the Python recursion is not proved (the model search is fuel-bounded by the element count).",
+        technique="Lean 4 theorems (induction on DFS fuel, dictionary algebra) + decide +kernel table obligations + differential correspondence",
+        ref="§5 C08",
+    ),
 }
 
 NOT_YET = "check not built yet in this session (model layer pending); see DESIGN.md §11 build order"
